@@ -74,7 +74,12 @@ func (c *SharedConfiguration) WithFixedRestartInterval(interval time.Duration) *
 //   - 该配置将会覆盖 WithFixedRestartInterval 方法的设置。
 func (c *SharedConfiguration) WithRestartInterval(baseDelay, maxDelay time.Duration) *SharedConfiguration {
 	c.restartInterval = func(count int) time.Duration {
-		return chrono.StandardExponentialBackoff(count, c.consecutiveRestartLimit, baseDelay, maxDelay)
+		maxRetries := c.consecutiveRestartLimit
+		if maxRetries <= 0 {
+			// 连续重启限制 <= 0 表示不限制（见 WithConsecutiveRestartLimit），而退避函数仅将负数视为不限制
+			maxRetries = -1
+		}
+		return chrono.StandardExponentialBackoff(count, maxRetries, baseDelay, maxDelay)
 	}
 	return c
 }
